@@ -204,6 +204,13 @@ func NetKey(url string) string {
 		if k, _, err := tcpKey(rest); err == nil {
 			return k
 		}
+	case "ws", "wss":
+		if j := strings.IndexByte(rest, '/'); j >= 0 {
+			rest = rest[:j]
+		}
+		if k, _, err := tcpKey(rest); err == nil {
+			return k
+		}
 	}
 	return rest
 }
@@ -531,24 +538,24 @@ func (c *NetConn) armDeadline(t time.Time) {
 }
 
 func (c *NetConn) SetDeadline(t time.Time) error {
-	c.mu.Lock()
+	c.mu.LockQuiet() // (net/http calls this with a sync.Mutex of its own held: no yield in here)
 	c.rdl, c.wdl = t, t
 	c.armDeadline(t)
-	c.mu.Unlock()
+	c.mu.UnlockQuiet()
 	return nil
 }
 func (c *NetConn) SetReadDeadline(t time.Time) error {
-	c.mu.Lock()
+	c.mu.LockQuiet() // (net/http calls this with a sync.Mutex of its own held: no yield in here)
 	c.rdl = t
 	c.armDeadline(t)
-	c.mu.Unlock()
+	c.mu.UnlockQuiet()
 	return nil
 }
 func (c *NetConn) SetWriteDeadline(t time.Time) error {
-	c.mu.Lock()
+	c.mu.LockQuiet() // (net/http calls this with a sync.Mutex of its own held: no yield in here)
 	c.wdl = t
 	c.armDeadline(t)
-	c.mu.Unlock()
+	c.mu.UnlockQuiet()
 	return nil
 }
 
